@@ -66,9 +66,15 @@ def cli_job(rng, w):
         argv += ["--", "-f", rng.choice(fmts), "-o", "second.out"]
     if rng.random() < 0.3:
         argv += ["-q"]
+    ndef = 0
+    if rng.random() < 0.35:
+        # several command-line defines (most name no constant of the program: one error each, in command-line order)
+        ndef = rng.randint(2, 6)
+        for nm in rng.sample(["alpha", "beta", "gamma", "delta", "k0", "k1", "x", "val", "zq.sub", "lbl0", "start", "omega"], ndef):
+            argv.append(rng.choice(["-d", "--define="]) + nm + rng.choice(["", "=1", "=0x20", "=true"]))
     job = {"mode": "drive", "files": lib.files_json(w["files"]), "argv": argv, "std": w["std"],
            "want": ["msgs", "printed", "symbols", "spans"]}
-    return job, len([p for p in params if p.split(":")[0] not in ("base", "group", "addr_unit")])
+    return job, len([p for p in params if p.split(":")[0] not in ("base", "group", "addr_unit")]) + ndef
 
 
 def with_sibling_files(rng, w):
